@@ -518,7 +518,26 @@ func evalVersionCFG(fn *ssa.Function, role map[ssa.Value]string, cmpMin, cmpMax 
 		last := b.Instrs[len(b.Instrs)-1]
 		switch x := last.(type) {
 		case *ssa.Return:
-			return len(x.Results) == 1 && core.IsNilConst(x.Results[0]), ""
+			if len(x.Results) != 1 {
+				return false, ""
+			}
+			if core.IsNilConst(x.Results[0]) {
+				return true, ""
+			}
+			// errors.Wrap/Wrapf/WithMessage/WithStack return nil for a nil cause: in this scenario no call has
+			// failed, so wrapping an error variable (as opposed to constructing a new error) yields nil = accepted
+			if cl, isCall := x.Results[0].(*ssa.Call); isCall {
+				if f := core.Callee(cl); f != nil && f.Pkg() != nil && strings.HasSuffix(f.Pkg().Path(), "pkg/errors") &&
+					(strings.HasPrefix(f.Name(), "Wrap") || strings.HasPrefix(f.Name(), "WithMessage") || f.Name() == "WithStack") && len(cl.Call.Args) > 0 {
+					cause := core.Unwrap(cl.Call.Args[0])
+					if _, fresh := cause.(*ssa.MakeInterface); !fresh {
+						if _, isCall2 := cause.(*ssa.Call); !isCall2 {
+							return true, "(returns " + f.Name() + " of an error value that is nil on this path: nil)"
+						}
+					}
+				}
+			}
+			return false, ""
 		case *ssa.Jump:
 			b = b.Succs[0]
 		case *ssa.If:
